@@ -333,6 +333,24 @@ CHECKS["C12"] = dict(
               "independent verification oracle (harness/ref + std crypto); seeded mutation of decoder inputs with re-encoding oracle",
 )
 
+CHECKS["C20"] = dict(
+    category="model_checking",
+    text="Migrillian.tla (source log, pre-ordered destination, controller passes with consistency gate, embedded fetcher with "
+         "short reads, submitters with quota back-off, mastership, cancellation/restart, counted fault oracle) is model-checked "
+         "exhaustively by TLC for Mirror/Bounded/Gate/NoConflict/QuotaRetried/Complete/VerbatimBad and for Progress under weak "
+         "fairness. TLC-simulated behaviours are replayed as fault schedules into the real core.Controller (Run/RunWhenMaster, real "
+         "client.LogClient over an in-process source log with real signed STHs, entries and RFC 6962 proofs, reference pre-ordered "
+         "backend) under synctest virtual time and -race. Traces of random scenarios are validated by MigrillianTrace.tla with all "
+         "invariants on. Every AddSequencedLeaves request and the final destination are judged index by index by reference code.",
+    design="4/C20",
+    note="Hash/signature soundness (tokens in the spec, real trees/keys in the harness). Source <=4 (+2), batch 1..3, "
+         "fetchers/submitters 1..3, <=2 faults exhaustively (3 in simulation and random runs). Unparsable means well-formed TLS "
+         "structures with bad certificate bytes. SHA256_LEAF_INDEX little-endian encoding is taken from the code. Source never "
+         "smaller than the destination. NoConsistencyCheck off.",
+    technique="TLA+ spec + TLC exhaustive safety and liveness; spec->code replay of simulated fault schedules; code->spec trace "
+              "validation with silent-step search; oracle-free runtime monitors; testing/synctest virtual time",
+)
+
 NOT_YET = {}
 
 def main():
